@@ -28,6 +28,7 @@ import (
 	"crypto/sha256"
 	"encoding/hex"
 	"fmt"
+	"github.com/restic/restic/internal/backend"
 	"os"
 	"path/filepath"
 	"strings"
@@ -421,6 +422,85 @@ func TestVerifC14Fuse(t *testing.T) {
 			if rec.WantSample() && caseNo%9 == 0 {
 				rec.Sample(desc)
 			}
+		}
+		// ---- backup + forget between two refreshes of one mount (seeded change C14-1): the number of
+		// snapshots does not grow, but the set changes; the new snapshot must be readable
+		if env.Mine(wi) {
+			func() {
+				be := kit.NewVBackendFrom(baseState, 2, true)
+				desc := map[string]any{"world": wi, "scenario": "backup+forget between refreshes"}
+				repoR, err := c14fOpen(ctx, be, 2)
+				if err != nil {
+					rec.Inconclusive("fuse world %d: open failed: %v", wi, err)
+					return
+				}
+				root := NewRoot(repoR, Config{})
+				if _, err := root.ReadDirAll(ctx); err != nil {
+					rec.Inconclusive("fuse world %d: initial listing failed: %v", wi, err)
+					return
+				}
+				ids0, err := root.Lookup(ctx, "ids")
+				if err == nil {
+					_, err = ids0.(*SnapshotsDir).ReadDirAll(ctx) // the mount has seen S1 and loaded its index
+				}
+				if err != nil {
+					rec.Inconclusive("fuse world %d: first ids listing failed: %v", wi, err)
+					return
+				}
+				s2, err := c14fBackup(ctx, be, 1, src)
+				if err != nil {
+					rec.Violation("writer-failed", fmt.Sprintf("backup next to an idle mount failed: %v", err), desc)
+					return
+				}
+				be.Drop(backend.SnapshotFile, s1.String()) // forget S1 (forget removes the snapshot file)
+				ds := root.SnapshotsDir.dirStruct
+				ds.mutex.Lock()
+				ds.lastCheck = time.Time{} // the reload interval has passed
+				ds.mutex.Unlock()
+				ids, err := root.Lookup(ctx, "ids")
+				if err != nil {
+					rec.Violation("reader-failed:fusemount", fmt.Sprintf("mount after backup+forget: Lookup(ids): %v", err), desc)
+					return
+				}
+				ents, err := ids.(*SnapshotsDir).ReadDirAll(ctx)
+				if err != nil {
+					rec.Violation("reader-failed:fusemount", fmt.Sprintf("mount after backup+forget: ReadDirAll(ids): %v", err), desc)
+					return
+				}
+				seen := 0
+				for _, e := range ents {
+					if e.Name == "." || e.Name == ".." {
+						continue
+					}
+					seen++
+					n, err := ids.(*SnapshotsDir).Lookup(ctx, e.Name)
+					if err != nil {
+						rec.Violation("reader-failed:fusemount", fmt.Sprintf("mount after backup+forget: Lookup(ids/%s): %v", e.Name, err), desc)
+						return
+					}
+					got := map[string]string{}
+					if err := c14fReadTree(ctx, n, "", got); err != nil {
+						rec.Violation("reader-failed:fusemount", fmt.Sprintf("mount after backup+forget (snapshot count unchanged): snapshot ids/%s is listed but cannot be read: %v", e.Name, err), desc)
+						return
+					}
+					if e.Name == s2.Str() {
+						files := map[string]string{}
+						for p, sv := range got {
+							if i := strings.Index(p, src); i >= 0 {
+								files[strings.TrimPrefix(p[i+len(src):], "/")] = sv
+							}
+						}
+						for p, sv := range B {
+							if files[p] != sv {
+								rec.Violation("reader-wrong-result:fusemount", fmt.Sprintf("mount after backup+forget: ids/%s file %q has wrong content", e.Name, p), desc)
+								return
+							}
+						}
+					}
+				}
+				rec.Case(fmt.Sprintf("fuse-backup-forget/%d/%d", wi, seen), true)
+				rec.Count("mount_backup_forget_scenarios", 1)
+			}()
 		}
 		_ = os.RemoveAll(base)
 	}
